@@ -28,6 +28,9 @@ def run(ctx):
     lang.install_http_stub()
     envs = [lang.LeafEnv(lang.LeafEnv.WITH_HTTP, off) for off in range(8)][:6] + [pc.ROLE_ENV]
     envs[1] = lang.LeafEnv(('http', 'role', 'https', 'rule'), 0)
+    from harness import ev as _ev
+    _ev.install_probes()
+    envs[2] = lang.LeafEnv(('colon', 'probe', 'role', 'generic', 'probe'), 0)
     lenv = envs[0]
     cases = []
     # every sentence up to the bound (rejected inputs print as "!", also checked)
